@@ -31,6 +31,17 @@ func proveLemmaRegion(P *Program, name, dir string, timeout int, cross bool, reg
 		if ax.Lemma && seenTarget {
 			continue
 		}
+		if target != nil && len(target.Using) > 0 {
+			listed := false
+			for _, u := range target.Using {
+				if u == ax.Name {
+					listed = true
+				}
+			}
+			if !listed {
+				continue
+			}
+		}
 		before = append(before, ax)
 	}
 	if target == nil {
@@ -38,6 +49,16 @@ func proveLemmaRegion(P *Program, name, dir string, timeout int, cross bool, reg
 	}
 	g := &gen{P: P, fs: &FuncSpec{}, c: newSmtCtx(target.Strings), name: "lemma", oblNames: map[string]int{}, allVars: map[string]string{},
 		used: map[string]bool{}, snapNames: map[string]bool{}, localCell: map[string]string{}, fieldRefs: map[string]*fieldAccess{}, finalVals: map[*ssa.FreeVar]Val{}, pureCache: map[*SpecFunc]bool{}}
+	if target.Hide != "" {
+		g.hide = func(n string) bool {
+			for _, r := range target.Reveal {
+				if r == n {
+					return false
+				}
+			}
+			return globMatch(target.Hide, n)
+		}
+	}
 	st := &State{m: map[string]string{}}
 	var facts []string
 	for _, ax := range before {
@@ -45,7 +66,7 @@ func proveLemmaRegion(P *Program, name, dir string, timeout int, cross bool, reg
 			continue
 		}
 		e := &env{g: g, vars: map[string]binding{}, st: st, old: st, pkgPath: ax.PkgPath, imports: ax.Imports}
-		t, err := e.trBool(ax.E)
+		t, err := e.trBool(P.factOf(ax))
 		if err != nil {
 			if target.Strings {
 				continue // abstract-string axioms may not translate in string-theory mode
